@@ -1,5 +1,8 @@
 import MgpuModel.C04
 import MgpuProofs.C04
+import MgpuProofs.C04Bits
+import MgpuProofs.C04Enc
+import MgpuProofs.C04Total
 /-! # C04 — property theorems (decoding is total, deterministic, inverse to encoding)
 
 The tables (`Gen.formats`, `Gen.rowsBefore/After`, copy loop, registers) are regenerated from
@@ -35,9 +38,6 @@ theorem rows_opcode_bound : ∀ r ∈ allRows, r.opcode < 1024 := by
   intro r hr
   simpa using List.all_eq_true.mp h r hr
 
-/-- the canonical word of a row: its format's encoding with the opcode field filled in -/
-def opcodeWord (f : Format) (op : Nat) : Nat := f.encoding + op * 2 ^ f.opLo
-
 def rowMatches (r : Row) : Bool :=
   match formatOf r.ft with
   | none => false
@@ -59,6 +59,157 @@ theorem rows_reachable (r : Row) (hr : r ∈ allRows) :
 
 /-- non-vacuity: the table is not empty and contains copies made by the loop -/
 example : 1000 < allRows.length ∧ 0 < copies.length := by decide +kernel
+
+/-- **Matching a format is a comparison of the top bits.** Every mask in the (regenerated) format
+    table keeps the bits `k..31` for some `k` (`shiftOf`), so a 32-bit word is a candidate for a
+    format exactly when it agrees with the format's encoding from bit `k` upwards — whatever the
+    lower bits are. (General bit-level fact: `hit_iff_div`.) -/
+theorem formats_hit_iff_div (f : Format) (hf : f ∈ formats) (w : Nat) (hw : w < 2 ^ 32) :
+    (w ^^^ f.encoding) &&& f.mask = 0 ↔ w / 2 ^ shiftOf f = f.encoding / 2 ^ shiftOf f := by
+  obtain ⟨hm, hk, he⟩ := formats_shaped f hf
+  rw [hm]
+  exact hit_iff_div w f.encoding _ hk hw he
+
+/-- non-vacuity: the table's shifts are the expected ones (SOP1 23, VOP2 31, SMEM 26) -/
+example : formats.map shiftOf = [23, 23, 23, 25, 25, 26, 26, 26, 26, 26, 26, 26, 26, 26, 26, 28, 30, 31] := by
+  decide
+
+/-- **Format matching reads only bits 16..31 of the first dword**: two 32-bit words that agree on
+    their upper halves are matched to the same format (operand fields in the lower half can never
+    redirect an instruction to another format; 16 is the VOP3 opcode field's low end). -/
+theorem matchFormat_depends_on_top_bits (w w' : Nat) (hw : w < 2 ^ 32) (hw' : w' < 2 ^ 32)
+    (h : w / 2 ^ 16 = w' / 2 ^ 16) : matchFormat w = matchFormat w' :=
+  matchFormat_top16 w w' hw hw' h
+
+/-- non-vacuity and sharpness: `v_add_f32 v0, v0, v0` vs. the same with other operands; and bit 16
+    does matter (VOP3a opcode 280 vs. VOP3b opcode 281) -/
+example : matchFormat 0x02000000 = matchFormat 0x0200ffff ∧
+    matchFormat 0xD1180000 ≠ matchFormat 0xD1190000 := by decide
+
+theorem rows_fill : allRows.all rowFill = true := by decide +kernel
+
+/-- **Every table row is reachable under EVERY operand filling.** Take any row `r` of the decode
+    table and ANY 32-bit word `w` that carries the encoding of `r`'s format under the format's mask
+    and `r`'s opcode in the opcode field — all other bits (operands, modifiers, reserved bits)
+    arbitrary. Then `w` is matched to `r`'s format (no more specific format shadows it; VOP3a/VOP3b
+    split by the opcode list respected), and the table lookup with the opcode read from `w` returns
+    exactly `r`. This lifts `rows_reachable` from the canonical word to all fillings. -/
+theorem rows_reachable_all_fillings (r : Row) (hr : r ∈ allRows) :
+    ∃ f, formatOf r.ft = some f ∧
+      ∀ w, w < 2 ^ 32 → (w ^^^ f.encoding) &&& f.mask = 0 → extractBits w f.opLo f.opHi = r.opcode →
+        matchFormat w = some f ∧ lookUp f.ft (extractBits w f.opLo f.opHi) = some r := by
+  have hfill := List.all_eq_true.mp rows_fill r hr
+  cases hf : formatOf r.ft with
+  | none => simp [rowFill, hf] at hfill
+  | some f =>
+    refine ⟨f, rfl, ?_⟩
+    intro w hw henc hop
+    refine ⟨match_of_rowFill hfill hf hw (by simpa [hit] using henc) hop, ?_⟩
+    rw [hop, (formatOf_mem hf).2]
+    exact (rows_reachable r hr).2
+
+/-- non-vacuity: `s_add_u32` with all operand bits set / clear, and a VOP3b row
+    (`v_add_co_u32`-class opcode 281) with arbitrary low bits -/
+example : matchFormat 0x807fffff = formatOf FT_SOP2 ∧ matchFormat 0x80000000 = formatOf FT_SOP2 ∧
+    matchFormat 0xD119ABCD = formatOf FT_VOP3b := by decide
+
+/-- **Encode/decode round trip** for SOP2, SOPK, SOP1, SOPC, SOPP, VOP2, VOP1, VOPC and SMEM
+    (field packing written out from the ISA manual in `encWord`, independent of the regenerated
+    format table): every well-formed description — opcode in the decode table, operand codes in
+    range and denoting an operand, a 32-bit literal present exactly when a source field says 255
+    (or the opcode is a VOP2 "K" form) — encodes to bytes that decode, WHATEVER bytes follow and on
+    both architectures, to exactly the instruction the description denotes (`instOf`: name and
+    opcode of the table row, each operand at its role with its register count, the literal value,
+    immediates and flags, size 4 or 8). So the decoder's field extraction is the inverse of the
+    ISA's packing, no format shadows another on any well-formed word, and the literal is found. -/
+theorem decode_encode (c : Bool) (d : Desc) (hwf : wellFormed d = true) (t : List Nat) :
+    decode c (encode d ++ t) = .ok (instOf d) := by
+  unfold wellFormed at hwf
+  simp only [Bool.and_eq_true, beq_iff_eq] at hwf
+  obtain ⟨⟨⟨hlk, hfo⟩, hl⟩, hlb⟩ := hwf
+  cases hrow : lookUp d.ft d.op with
+  | none => simp [hrow] at hlk
+  | some row =>
+    obtain ⟨hr, hrf, hro⟩ := lookUp_some hrow
+    have hfill := List.all_eq_true.mp rows_fill row hr
+    cases hf : formatOf row.ft with
+    | none => simp [rowFill, hf] at hfill
+    | some f =>
+      have hfit := opcode_fits_of_rowFill hfill hf
+      obtain ⟨hfm, hfft⟩ := formatOf_mem hf
+      rw [hro] at hfit
+      rw [hrf] at hfft
+      have hsec := fun l => encSecond_lt hfo hlb (l := l)
+      obtain ⟨f', hf', hall⟩ := rows_reachable_all_fillings row hr
+      rw [hf] at hf'
+      have hff := Option.some.inj hf'
+      subst hff
+      rcases fieldsOK_ft hfo with h | h | h | h | h | h | h | h | h
+      · obtain ⟨a1, a2, a3, a4, a5⟩ := fmt_sop2 f hfm (hfft.trans h)
+        rw [a2, a3] at hfit
+        refine roundtrip_of c d row f hfm hall hsec ?_ t
+        rw [a2, a3, a4, a5, hro]
+        exact enc_sop2 c d row f h (hfft.trans h) a1 hrow (by simpa using hfit) hfo hl
+      · obtain ⟨a1, a2, a3, a4, a5⟩ := fmt_sopk f hfm (hfft.trans h)
+        rw [a2, a3] at hfit
+        refine roundtrip_of c d row f hfm hall hsec ?_ t
+        rw [a2, a3, a4, a5, hro]
+        exact enc_sopk c d row f h (hfft.trans h) a1 hrow (by simpa using hfit) hfo hl
+      · obtain ⟨a1, a2, a3, a4, a5⟩ := fmt_sop1 f hfm (hfft.trans h)
+        rw [a2, a3] at hfit
+        refine roundtrip_of c d row f hfm hall hsec ?_ t
+        rw [a2, a3, a4, a5, hro]
+        exact enc_sop1 c d row f h (hfft.trans h) a1 hrow (by simpa using hfit) hfo hl
+      · obtain ⟨a1, a2, a3, a4, a5⟩ := fmt_sopc f hfm (hfft.trans h)
+        rw [a2, a3] at hfit
+        refine roundtrip_of c d row f hfm hall hsec ?_ t
+        rw [a2, a3, a4, a5, hro]
+        exact enc_sopc c d row f h (hfft.trans h) a1 hrow (by simpa using hfit) hfo hl
+      · obtain ⟨a1, a2, a3, a4, a5⟩ := fmt_sopp f hfm (hfft.trans h)
+        rw [a2, a3] at hfit
+        refine roundtrip_of c d row f hfm hall hsec ?_ t
+        rw [a2, a3, a4, a5, hro]
+        exact enc_sopp c d row f h (hfft.trans h) a1 hrow (by simpa using hfit) hfo hl
+      · obtain ⟨a1, a2, a3, a4, a5⟩ := fmt_vop2 f hfm (hfft.trans h)
+        rw [a2, a3] at hfit
+        refine roundtrip_of c d row f hfm hall hsec ?_ t
+        rw [a2, a3, a4, a5, hro]
+        exact enc_vop2 c d row f h (hfft.trans h) a1 hrow (by simpa using hfit) hfo hl
+      · obtain ⟨a1, a2, a3, a4, a5⟩ := fmt_vop1 f hfm (hfft.trans h)
+        rw [a2, a3] at hfit
+        refine roundtrip_of c d row f hfm hall hsec ?_ t
+        rw [a2, a3, a4, a5, hro]
+        exact enc_vop1 c d row f h (hfft.trans h) a1 hrow (by simpa using hfit) hfo hl
+      · obtain ⟨a1, a2, a3, a4, a5⟩ := fmt_vopc f hfm (hfft.trans h)
+        rw [a2, a3] at hfit
+        refine roundtrip_of c d row f hfm hall hsec ?_ t
+        rw [a2, a3, a4, a5, hro]
+        exact enc_vopc c d row f h (hfft.trans h) a1 hrow (by simpa using hfit) hfo hl
+      · obtain ⟨a1, a2, a3, a4, a5⟩ := fmt_smem f hfm (hfft.trans h)
+        rw [a2, a3] at hfit
+        refine roundtrip_of c d row f hfm hall hsec ?_ t
+        rw [a2, a3, a4, a5, hro]
+        exact enc_smem c d row f h (hfft.trans h) a1 hrow (by simpa using hfit) hfo
+
+/-- non-vacuity: well-formed descriptions exist in every covered format, with and without a
+    literal (`s_add_u32 s1, 0xdeadbeef, s2`; `s_movk_i32`; `s_mov_b64 exec, vcc`; `s_cmp_eq_i32`;
+    `s_waitcnt`; `v_madak_f32`; `v_mov_b32 v3, 1.0`; `v_cmp_lt_f32 vcc, lit, v9`;
+    `s_load_dwordx2 s[4:5], s[8:9], 0x10`), and ill-formed ones are rejected -/
+example : [ ({ ft := FT_SOP2, op := 0, sdst := 1, ssrc0 := 255, ssrc1 := 2, lit := some 0xdeadbeef } : Desc),
+            { ft := FT_SOPK, op := 0, sdst := 5, simm16 := 0xffff },
+            { ft := FT_SOP1, op := 1, sdst := 126, ssrc0 := 106 },
+            { ft := FT_SOPC, op := 0, ssrc0 := 3, ssrc1 := 193 },
+            { ft := FT_SOPP, op := 12, simm16 := 0x0070 },
+            { ft := FT_VOP2, op := 24, src0 := 256, vsrc1 := 1, vdst := 2, lit := some 0x3f800000 },
+            { ft := FT_VOP1, op := 1, src0 := 242, vdst := 3 },
+            { ft := FT_VOPC, op := 0x41, src0 := 255, vsrc1 := 9, lit := some 7 },
+            { ft := FT_SMEM, op := 1, sbase := 4, sdata := 4, imm := 1, offset := 16 } ].all wellFormed = true ∧
+    wellFormed { ft := FT_SOP2, op := 0, sdst := 1, ssrc0 := 255, ssrc1 := 2 } = false ∧
+    wellFormed { ft := FT_SOP2, op := 0, sdst := 1, ssrc0 := 209, ssrc1 := 2 } = false ∧
+    wellFormed { ft := FT_SOP2, op := 127, sdst := 1, ssrc0 := 1, ssrc1 := 2 } = false ∧
+    encode { ft := FT_SOP2, op := 0, sdst := 1, ssrc0 := 255, ssrc1 := 2, lit := some 0xdeadbeef } =
+      [0xff, 0x02, 0x01, 0x80, 0xef, 0xbe, 0xad, 0xde] := by
+  decide +kernel
 
 /-- **Reported sizes are 4 or 8 and never exceed the buffer**, for every byte string. -/
 theorem decode_size (cdna3 : Bool) (buf : List Nat) (i : Inst)
@@ -110,5 +261,77 @@ example : (match decode false [0xff, 0x00, 0x80, 0xbe, 0xef, 0xbe, 0xad, 0xde, 1
 example : (match decode false [0x00, 0x00, 0x81, 0xbf] with
            | .ok i => (i.opcode, i.size) | _ => (99, 0)) = (1, 4) := by
   decide +kernel
+
+
+/-- **Decoding is total and deterministic**: for every architecture flag and EVERY byte string
+    (any length, any content) exactly one of three things happens — an instruction, the error
+    return, or the explicit "not implemented" panic. The model has no fourth outcome: all its
+    functions are total, every list access is guarded by the length tests of `decodeWith` /
+    `decodeRow` (`getD` never reads a default), operands are `Option`s that are matched before use.
+    That the real decoder has no fault (index out of range, nil operand) either is what the
+    per-run correspondence and the `C04.fault.*` oracle tie to this statement; the four faults
+    they found were repaired. -/
+theorem decode_total (c : Bool) (buf : List Nat) :
+    ((∃ i, decode c buf = .ok i) ∧ decode c buf ≠ .err ∧ decode c buf ≠ .notImpl) ∨
+    ((¬ ∃ i, decode c buf = .ok i) ∧ decode c buf = .err) ∨
+    ((¬ ∃ i, decode c buf = .ok i) ∧ decode c buf = .notImpl) := by
+  cases h : decode c buf with
+  | ok i => exact Or.inl ⟨⟨i, rfl⟩, by simp, by simp⟩
+  | err => exact Or.inr (Or.inl ⟨by simp, rfl⟩)
+  | notImpl => exact Or.inr (Or.inr ⟨by simp, rfl⟩)
+
+/-- non-vacuity: all three outcomes occur (`s_endpgm`; an unknown operand code; SDWA with the
+    dst-clamp bit) -/
+example : (∃ i, decode false [0x00, 0x00, 0x81, 0xbf] = .ok i) ∧
+    decode false [0x80, 0x00, 0x00, 0x7d] = .err ∧
+    decode false [0xf9, 0x00, 0x00, 0x02, 0x00, 0x20, 0x00, 0x00] = .notImpl := by
+  refine ⟨?_, by decide +kernel, by decide +kernel⟩
+  cases h : decode false [0x00, 0x00, 0x81, 0xbf] with
+  | ok i => exact ⟨i, rfl⟩
+  | err => exact absurd h (by decide +kernel)
+  | notImpl => exact absurd h (by decide +kernel)
+
+/-- every row of the decode table belongs to a format that has a decoder, of the right size class -/
+theorem rows_have_decoders :
+    (allRows.all fun r => formats.all fun f => f.ft != r.ft || ftSizes.contains (f.ft, f.size)) = true := by
+  decide +kernel
+
+/-- non-vacuity: 13 formats have decoders; VINTRP, MUBUF, MTBUF, MIMG, EXP have none (and no rows) -/
+example : ftSizes.length = 13 ∧ (FT_VINTRP, 4) ∉ ftSizes ∧ (FT_MUBUF, 8) ∉ ftSizes := by decide
+
+/-- **The "not implemented" panic is reachable only through SDWA modifiers.** If a byte string
+    makes the decoder panic, then it has at least 8 bytes, its first dword is matched to VOP2 with
+    source field 249 (SDWA), and its second dword sets one of the seven unsupported modifier bits
+    (`sdwaUnsupported`: dst clamp, src0/src1 sext, neg, abs). In particular no table row lacks a
+    decoder, and no 8-byte format, scalar format, VOP1 or VOPC word can panic. -/
+theorem decode_no_notimpl_without_sdwa (c : Bool) (buf : List Nat) (h : decode c buf = .notImpl) :
+    8 ≤ buf.length ∧ (matchFormat (le32 buf 0)).map (·.ft) = some FT_VOP2 ∧
+    extractBits (le32 buf 0) 0 8 = 249 ∧ sdwaUnsupported (le32 buf 4) = true := by
+  unfold decode decodeWith at h
+  by_cases hl : buf.length < 4
+  · simp [hl] at h
+  · simp only [hl, if_false] at h
+    obtain ⟨a, b, w1, hw1, hu⟩ := decodeCore_notImpl rows_have_decoders _ _ _ h
+    by_cases h8 : buf.length ≥ 8
+    · simp only [h8, if_true, Option.some.injEq] at hw1
+      subst hw1
+      exact ⟨h8, a, b, hu⟩
+    · simp [h8] at hw1
+
+/-- and conversely: a VOP2 word of a table opcode with source field 249 whose SDWA dword sets an
+    unsupported modifier bit does panic (the finding the harness counts as `outcome.notimpl`) -/
+theorem sdwa_unsupported_notimpl (c : Bool) (buf : List Nat) (h8 : 8 ≤ buf.length) (f : Format)
+    (hm : matchFormat (le32 buf 0) = some f) (h2 : f.ft = FT_VOP2)
+    (hrow : (lookUp f.ft (extractBits (le32 buf 0) f.opLo f.opHi)).isSome = true)
+    (h249 : extractBits (le32 buf 0) 0 8 = 249) (hu : sdwaUnsupported (le32 buf 4) = true) :
+    decode c buf = .notImpl := by
+  unfold decode decodeWith
+  have hl : ¬ buf.length < 4 := by omega
+  have h8' : buf.length ≥ 8 := h8
+  simp only [hl, if_false, h8', if_true]
+  exact decodeCore_sdwa c _ _ f hm h2 hrow h249 hu
+
+/-- non-vacuity: `v_add_f32_sdwa` with the clamp bit -/
+example : sdwaUnsupported 0x2000 = true ∧ sdwaUnsupported 0x06060600 = false := by decide
 
 end C04
